@@ -85,17 +85,21 @@ func ruleDeclaredOrder(c *eng.Ctx) {
 		c.Check(!rf["File"] && len(sortsIn(fn)) == 0, R, "xlsx.(*Reader).parseWorksheets#no-archive-order", fn.Pos(), "neither archive order nor a sort decides the sheet order", "sheet order depends on the ZIP member list or on a sort")
 		// the part is found through the relationship id of the ranged sheet
 		okRel := false
-		eng.Instrs(fn, false, func(in ssa.Instruction) {
-			if lk, ok := in.(*ssa.Lookup); ok {
-				if fr, ok := eng.LoadOfField(lk.X); ok && fr.Field == "sheetRels" {
-					for v := range eng.Slice(lk.Index, nil) {
-						if f, ok := eng.AsField(v); ok && f.Field == "RID" {
-							okRel = true
+		// the lookup may sit in a helper that receives the r:id as a parameter
+		cluster := eng.Cluster(fn, 2)
+		for _, h := range cluster {
+			eng.Instrs(h, false, func(in ssa.Instruction) {
+				if lk, ok := in.(*ssa.Lookup); ok {
+					if fr, ok := eng.LoadOfField(lk.X); ok && fr.Field == "sheetRels" {
+						for v := range eng.SliceInter(lk.Index, nil, cluster) {
+							if f, ok := eng.AsField(v); ok && f.Field == "RID" {
+								okRel = true
+							}
 						}
 					}
 				}
-			}
-		})
+			})
+		}
 		c.Check(okRel, R, "xlsx.(*Reader).parseWorksheets#relationship", fn.Pos(), "part path resolved through the sheet's relationship id", "the worksheet part is not looked up through the declared sheet's r:id")
 	}
 	// PPTX
